@@ -230,6 +230,22 @@ def _ops():
         # a clone is a new object: evaluating it must not disturb the original's later results
         return "sv:%r:%r" % (L.sv_radius, L.sv_pd), v, []
 
+    def sv_clone_mut(L):
+        # work on a clone (other width, point count and radius): the original must not notice
+        sv_new(L)
+        params0 = copy.deepcopy(L.sv.params)
+        disp0 = copy.deepcopy(L.sv.dispersion)
+        c = L.sv.clone()
+        c.setParam("radius.width", 0.4)
+        c.setParam("radius.npts", 5)
+        c.setParam("radius", 51.0)
+        v = c.evalDistribution(np.array(Q1))
+        ch = []
+        if L.sv.params != params0 or L.sv.dispersion != disp0:
+            ch.append("setParam on a clone changed the original's tables: params %r -> %r, dispersion[radius] %r -> %r"
+                      % (params0.get("radius"), L.sv.params.get("radius"), disp0.get("radius"), L.sv.dispersion.get("radius")))
+        return "svclone:51:0.4:5", v, ch
+
     def sv_2d(L):
         sv_new(L)
         v = L.sv.evalDistribution([np.array(QX), np.array(QY)])
@@ -275,7 +291,7 @@ def _ops():
         ("prod", generic("sphere@hardsphere", "q1", "ps")),
         ("mix", generic("sphere+cylinder", "q1", "mix")),
         ("direct", direct), ("iq_fn", iq_fn),
-        ("sv_set", sv_set), ("sv_pd", sv_pd), ("sv_eval", sv_eval), ("sv_clone", sv_clone_eval), ("sv_2d", sv_2d),
+        ("sv_set", sv_set), ("sv_pd", sv_pd), ("sv_eval", sv_eval), ("sv_clone", sv_clone_eval), ("sv_clone_mut", sv_clone_mut), ("sv_2d", sv_2d),
         ("svps", svps_comp),
         ("release", release), ("reload", reload),
     ]
@@ -283,7 +299,7 @@ def _ops():
 
 
 QUICK_OPS = ["mk_q2", "sph_mono", "sph_disp", "sph_zero", "sph2d_mag", "sph2d_mono", "sph_fq", "cyl_disp", "py_1", "py_2",
-             "prod", "mix", "direct", "sv_set", "sv_eval", "sv_clone", "svps", "release", "reload"]
+             "prod", "mix", "direct", "sv_set", "sv_eval", "sv_clone_mut", "svps", "release", "reload"]
 
 
 def _op_table(ctx_quick):
@@ -421,7 +437,7 @@ def _build_oracle(ctx, ops):
             continue
         if n.startswith("sph_") or n == "sph_fq":
             variants = [[], ["mk_q2"]] if "mk_q2" in names else [[]]
-        elif n in ("sv_eval", "sv_clone", "sv_2d"):
+        elif n in ("sv_eval", "sv_clone", "sv_2d"):   # (sv_clone_mut: its request does not depend on the original's state)
             variants = [[]]
             if "sv_set" in names:
                 variants.append(["sv_set"])
